@@ -301,4 +301,59 @@ theorem holds_keyDetermines (C : Compression) (hcne : ∀ b, b ≠ [] → C.comp
   rw [hidx, seek_finished P hP cps hcne' hc] at h1 h2
   exact huniq cp (List.mem_of_find?_eq_some h1) cp' (List.mem_of_find?_eq_some h2) he
 
+/-! ### non-trivial doc-id mapping (sorted index): documents are taken in mapping order -/
+
+/-- the documents a mapping picks: for each entry the next document of the named segment -/
+def pickDocs : List (List Bytes) → List Nat → Option (List Bytes)
+  | _, [] => some []
+  | its, seg :: more =>
+    match its[seg]? with
+    | some (d :: tl) => (pickDocs (its.set seg tl) more).map (d :: ·)
+    | _ => none
+
+theorem mergeMapped_spec (C : Compression) (K : Nat) (hK : 1 ≤ K) (bs : Nat) : ∀ (order : List Nat)
+    (its : List (List Bytes)) (picked : List Bytes) (w : Writer) (done : List Bytes),
+    pickDocs its order = some picked → WInv C K w done → w.blockSize = bs →
+    (∀ l ∈ its, ∀ d ∈ l, d ≠ [] ∧ bs + d.length < 4294967296) →
+    ∃ w', mergeMapped C K w (its.map (List.map some)) order = some w' ∧ WInv C K w' (done ++ picked) ∧
+      w'.blockSize = bs := by
+  intro order
+  induction order with
+  | nil =>
+    intro its picked w done hp hw hb _
+    simp only [pickDocs, Option.some.injEq] at hp
+    subst hp
+    exact ⟨w, rfl, by simpa using hw, hb⟩
+  | cons seg more ih =>
+    intro its picked w done hp hw hb hall
+    simp only [pickDocs] at hp
+    cases hs : its[seg]? with
+    | none => rw [hs] at hp; cases hp
+    | some l =>
+      rw [hs] at hp
+      cases l with
+      | nil => cases hp
+      | cons d tl =>
+        simp only at hp
+        cases hrec : pickDocs (its.set seg tl) more with
+        | none => rw [hrec] at hp; cases hp
+        | some rest =>
+          rw [hrec] at hp
+          simp only [Option.map_some, Option.some.injEq] at hp
+          subst hp
+          have hmem : (d :: tl) ∈ its := List.mem_of_getElem? hs
+          obtain ⟨hd1, hd2⟩ := hall _ hmem d (List.mem_cons_self ..)
+          obtain ⟨h1, h2⟩ := winv_store C K hK w done d hd1 (by rw [hb]; exact hd2) hw
+          have hall' : ∀ l ∈ its.set seg tl, ∀ x ∈ l, x ≠ [] ∧ bs + x.length < 4294967296 := by
+            intro l hl x hx
+            rcases List.mem_or_eq_of_mem_set hl with h | h
+            · exact hall l h x hx
+            · subst h; exact hall _ hmem x (List.mem_cons_of_mem _ hx)
+          obtain ⟨w', e, hw', hb'⟩ := ih (its.set seg tl) rest _ _ hrec h1 (by rw [h2, hb]) hall'
+          refine ⟨w', ?_, by simpa using hw', hb'⟩
+          simp only [mergeMapped, List.getElem?_map, hs, Option.map_some, List.map_cons]
+          rw [← e]
+          congr 1
+          simp [List.map_set]
+
 end TantivyModel.Store
